@@ -37,7 +37,7 @@ def enumerate_cases(tier, scope):
         for vt in (None, 'int'):
             for req in (True, False):
                 shapes.append(dict(required=req, dynamic=dyn, valid_type=vt, validator=None, populate_defaults=True))
-    ports = [pm.port(required=True, valid_type='int'), pm.port(required=False, valid_type='str', validator='short'), pm.port(required=True, valid_type=None, validator='nonneg')]
+    ports = [pm.port(required=True, valid_type='int'), pm.port(required=False, valid_type='str', validator='short'), pm.port(required=True, valid_type=None, validator='nonneg'), pm.port(required=True, valid_type=None, validator='neg_empty')]
     paths = ['a', 'x', 'sub.q', 'sub.new', 'sub.deep.er', 'new.ns.leaf']
     for top in shapes:
         for sub in shapes:
@@ -57,6 +57,11 @@ def enumerate_cases(tier, scope):
                     yield {'spec': tree, 'emissions': [['sub.q', 2], ['a', 1]], 'ret': 5, 'late': late}
                     yield {'spec': tree, 'emissions': [['a', 's'], ['sub.q', 2]], 'ret': 5, 'late': late}
                 yield {'spec': tree, 'emissions': [], 'ret': 5}
+    # namespace validators with the deprecated one-argument signature see the collected values as well
+    legacy = pm.ns({'a': pm.port(required=False), 'b': pm.port(required=False, valid_type='int', validator='legacy_nonneg')}, validator='legacy_has_a', required=True)
+    for emissions in ([['a', 1]], [['b', 2]], [['b', -1]], [['a', 0], ['b', 3]], []):
+        yield {'spec': pm.ns({'g': legacy}), 'emissions': [['g.' + p, val] for p, val in emissions], 'ret': 0}
+        yield {'spec': pm.ns({'g': legacy}), 'emissions': [['g', dict(emissions)]] if emissions else [], 'ret': 0}
     # a port-less namespace declared a second time with other options: the last declaration counts
     for first in shapes:
         for second in shapes:
@@ -80,7 +85,7 @@ def _port(draw):
     return pm.port(
         required=draw(st.booleans()),
         valid_type=draw(st.sampled_from([None, None, 'int', 'str', 'num'])),
-        validator=draw(st.sampled_from([None, None, 'nonneg', 'short', 'never'])),
+        validator=draw(st.sampled_from([None, None, 'nonneg', 'short', 'never', 'neg_empty', 'legacy_nonneg'])),
     )
 
 
@@ -100,7 +105,7 @@ def _ns(draw, depth):
         required=draw(st.booleans()),
         dynamic=dynamic,
         valid_type=valid_type,
-        validator=None if is_dyn else draw(st.sampled_from([None, None, 'has_a', 'small'])),
+        validator=None if is_dyn else draw(st.sampled_from([None, None, 'has_a', 'small', 'legacy_has_a'])),
         populate_defaults=True,
     )
 
